@@ -253,7 +253,7 @@ def scan(file, data, sizes, flags=("match", "nomatch"), timeout=False, mode="mem
 
 def model_check(res, cfgs, timeout=1500):
     for name, cfg in cfgs:
-        r = yv.tlc("ScanMC", cfg, yv.workdir(res.prop), timeout=timeout)
+        r = yv.tlc("ScanMC", cfg, yv.workdir(res.prop), timeout=timeout, tier=res.tier)
         yv.require_tlc_ok(r, cfg) if not r["violated"] else None
         res.add_tlc(name, r)
         if r["violated"]:
